@@ -180,10 +180,10 @@ Proof.
 Qed.
 
 (* shape of the saved file: body, cross-reference part, startxref with the body length *)
-Lemma save_ok_shape xt d :
-  so_status (save xt d) = SaveOk ->
+Lemma save_core_shape xt d :
+  so_status (save_core xt d) = SaveOk ->
   exists mid,
-    so_bytes (save xt d) = body_of d ++ mid ++ startxref_bytes (blen (body_of d)) /\
+    so_bytes (save_core xt d) = body_of d ++ mid ++ startxref_bytes (blen (body_of d)) /\
     match xt with
     | XTable => mid = write_xref (xmap_of d) (d_max_id d + 1) ++ trailer_bytes (trailer_table d)
     | XStream =>
@@ -191,7 +191,7 @@ Lemma save_ok_shape xt d :
       mid = write_indirect_object (d_max_id d + 1) 0 (OStream (fst (fst p)) (snd (fst p)))
     end.
 Proof.
-  unfold save. intro H.
+  unfold save_core. intro H.
   destruct (u32_top <=? d_max_id d); [discriminate|].
   destruct (negb (binary_mark_ok (d_binary_mark d))); [discriminate|].
   pose proof (xref_start_is_length d) as Hl. unfold xref_start_of, body_of, xmap_of in *.
@@ -202,6 +202,25 @@ Proof.
     destruct (xstream_parts d x (blen body mod u32_mod)) as [[t c] x1] eqn:E2. cbn [so_bytes fst snd].
     eexists. split; reflexivity.
 Qed.
+
+(* save = save_core after max_id has been raised to the largest object number; header, binary mark, objects
+   and the recorded offsets do not depend on max_id *)
+Lemma body_of_raise d : body_of (raise_max_id d) = body_of d.
+Proof. reflexivity. Qed.
+Lemma xmap_of_raise d : xmap_of (raise_max_id d) = xmap_of d.
+Proof. reflexivity. Qed.
+
+Lemma save_ok_shape xt d :
+  so_status (save xt d) = SaveOk ->
+  exists mid,
+    so_bytes (save xt d) = body_of d ++ mid ++ startxref_bytes (blen (body_of d)) /\
+    match xt with
+    | XTable => mid = write_xref (xmap_of d) (d_max_id (raise_max_id d) + 1) ++ trailer_bytes (trailer_table (raise_max_id d))
+    | XStream =>
+      let p := xstream_parts (raise_max_id d) (xmap_of d) (blen (body_of d) mod u32_mod) in
+      mid = write_indirect_object (d_max_id (raise_max_id d) + 1) 0 (OStream (fst (fst p)) (snd (fst p)))
+    end.
+Proof. intro H. exact (save_core_shape xt (raise_max_id d) H). Qed.
 
 (* ---------- decimal widths ---------- *)
 Lemma dec_digits_length : forall fuel k n acc,
